@@ -257,6 +257,30 @@ def exhaustive_small(run, rng, check, max_exhaustive=4):
                 check(m, variants)
 
 
+def regular_mixture_pairs(run, budget):
+    """mixtures of different regular skeletons whose atoms refinement cannot tell apart, each described several times with the
+    components, the atoms and the bonds listed in other orders (own random stream: the other workloads are unchanged)"""
+    import random as _random
+    rng = _random.Random(f"regular-mixtures-{os.environ.get('VERIF_SEED', '0')}")
+    for m in G.regular_mixtures(rng, 24 * budget):
+        sizes(run, m)
+        queue_pipeline_ops(run, shuffled_listing(mol_graph(m), rng))
+        s0, err = safe(tucan_of, mol_graph(m))
+        if err is not None:
+            run.fail("pipeline-raises", f"pipeline raised {type(err).__name__}", {"mol": mol_repr(m)})
+            continue
+        for _ in range(4):
+            m2, perm = G.relabel(m, rng)
+            g2 = shuffled_listing(mol_graph(m2), rng) if rng.random() < 0.7 else mol_graph(m2)
+            s2, err = safe(tucan_of, g2)
+            run.case(("C01mix", mol_repr(m), perm), True)
+            if err is not None:
+                run.fail("pipeline-raises", f"pipeline raised {type(err).__name__}", {"mol": mol_repr(m2)})
+            elif s2 != s0:
+                run.fail("string-differs-under-relabelling", f"two listings of one mixture give {s0!r} and {s2!r}",
+                         {"mol": mol_repr(m), "relabelled": mol_repr(m2), "perm": perm, "strings": [s0, s2]})
+
+
 def work_C01(run, rng, budget):
     if budget > 1:
         def chk(m, variants):
@@ -321,6 +345,7 @@ def work_C01(run, rng, budget):
                 run.fail("string-differs-under-relabelling", f"two files describing one molecule give {sa!r} and {sb!r} (graph level: {s0!r})",
                          {"mol": mol_repr(m), "relabelled": mol_repr(m2), "perm": perm, "files": [ta, tb], "strings": [sa, sb]})
         run.sample({"mol": mol_repr(m), "tucan": s0})
+    regular_mixture_pairs(run, budget)
     # the repository's own molecules, relabelled
     files = repo_molfiles()
     for f in rng.sample(files, min(len(files), 25 * budget)):
@@ -1611,8 +1636,59 @@ def big_families(budget):
     return fams
 
 
+def slow_refinement_shapes(budget):
+    """hydrogen-free carbon skeletons on which partition refinement needs many rounds relative to the number of atoms: two rings of
+    different size joined by a chain (a distinction has to cross the molecule more than once: about 2n/3 rounds), rings with a tail,
+    chains with one branch near an end, and unlabelled sparse random carbon graphs (own random stream)"""
+    import random as _random
+
+    def dumbbell(a, b, c):
+        e = G.sk_cycle(a) + [(a + i - 1 if i else 0, a + i) for i in range(b)]
+        last = a + b - 1 if b else 0
+        e += [(x + a + b, y + a + b) for x, y in G.sk_cycle(c)] + [(last, a + b)]
+        return a + b + c, e
+
+    out = []
+    sizes_ = [(3, 2, 4), (4, 3, 5), (5, 4, 6), (6, 6, 7), (10, 10, 11), (30, 30, 31), (100, 100, 101)]
+    if budget > 1:
+        sizes_ += [(300, 300, 301), (3, 600, 4)]
+    for a, b, c in sizes_:
+        n, e = dumbbell(a, b, c)
+        out.append((f"dumbbell{a}_{b}_{c}", n, e))
+    for a, b in [(3, 5), (5, 20), (8, 40), (4, 150)]:
+        e = G.sk_cycle(a) + [((a + i - 1) if i else 0, a + i) for i in range(b)]
+        out.append((f"lollipop{a}_{b}", a + b, e))
+    for k in (7, 24, 90):
+        out.append((f"broom{k}", k + 1, G.sk_path(k) + [(1, k)]))
+    rng = _random.Random(f"slow-refinement-{os.environ.get('VERIF_SEED', '0')}")
+    for i in range(40 * budget):
+        n = rng.randint(6, 14)
+        out.append((f"carbon_random{i}", n, G.sk_random(n, min(1.0, 2.4 / n), rng)))
+    return out
+
+
 def work_C15(run, rng, budget):
     import resource
+    for name, n, edges in slow_refinement_shapes(budget):
+        atoms = {i: {"element_symbol": "C", "atomic_number": 6, "partition": 0} for i in range(n)}
+        g = graph_from_molecule(atoms, {e: {} for e in edges})
+        run.case(("C15slow", name), True)
+        run.stats["family:" + name.rstrip("0123456789_")] += 1
+        try:
+            with limit(CALL_LIMIT_S):
+                s, err = safe(tucan_of, g)
+        except CallTimeout:
+            run.fail("pipeline-does-not-return", f"{name}: no result after {CALL_LIMIT_S} s", {"family": name, "atoms": n})
+            continue
+        if err is not None:
+            run.fail("pipeline-raises-" + type(err).__name__, f"{name}: {type(err).__name__}",
+                     {"family": name, "atoms": n, "bonds": [list(e) for e in edges]})
+            continue
+        if n <= 61:
+            queue_pipeline_ops(run, g)
+            p0, _err = safe(partition_molecule_by_attribute, g, "invariant_code")
+            if p0 is not None:
+                run.corr(*R.op_refine(p0), "observable")
     for name, n, edges, syms in big_families(budget):
         atoms = {i: {"element_symbol": (syms[i] if syms else "C"), "atomic_number": G.Z[syms[i] if syms else "C"], "partition": 0}
                  for i in range(n)}
@@ -1660,7 +1736,9 @@ def work_C15(run, rng, budget):
         h, err = safe(graph_from_tucan, s)
         if err is not None:
             run.fail("parser-raises-on-pipeline-output", f"{m.family}: {type(err).__name__} on {s[:60]!r}", {"mol": mol_repr(m), "string": s})
-    return "paths, cycles, ladders, combs, peptide backbones up to thousands of atoms, 3000 isolated atoms, 1000 two-atom components, K40, " \
+    return "hydrogen-free skeletons on which refinement is slow (two unequal rings joined by a chain, rings with a tail, brooms, sparse " \
+           "random carbon graphs), " \
+           "paths, cycles, ladders, combs, peptide backbones up to thousands of atoms, 3000 isolated atoms, 1000 two-atom components, K40, " \
            "stars with thousands of leaves, deep binary trees, square grids, K30,30, hundreds of identical rings " \
            "through the real pipeline and parser; model/real round counts compared on the same families at <= 61 atoms; every " \
            "family/size is a distinct non-trivial case"
